@@ -88,8 +88,13 @@ def relayout(path, key, layout):
 
 
 def write_h5ad(path, X, obs_names, var_names, encoding='dense',
-               layer=None, obs_extra=None, x_dtype=None, h5_layout=None):
-    """write a query / reference file with anndata (no dtype kwarg)"""
+               layer=None, obs_extra=None, x_dtype=None, h5_layout=None,
+               unsorted_indices=None):
+    """
+    write a query / reference file with anndata (no dtype kwarg);
+    unsorted_indices = seed: the minor indices of a CSR / CSC matrix are
+    stored in shuffled order within each major slice (valid, non-canonical)
+    """
     X = np.asarray(X)
     if x_dtype is not None:
         X = X.astype(x_dtype)
@@ -101,6 +106,16 @@ def write_h5ad(path, X, obs_names, var_names, encoding='dense',
         mat = scipy.sparse.csc_matrix(X)
     else:
         raise ValueError(encoding)
+    if unsorted_indices is not None and encoding in ('csr', 'csc'):
+        prng = np.random.default_rng(unsorted_indices)
+        mat.sort_indices()
+        for i in range(len(mat.indptr) - 1):
+            a, b = mat.indptr[i], mat.indptr[i + 1]
+            if b - a > 1:
+                p = prng.permutation(b - a)
+                mat.indices[a:b] = mat.indices[a:b][p]
+                mat.data[a:b] = mat.data[a:b][p]
+        mat.has_sorted_indices = False
     obs = pd.DataFrame(index=pd.Index([str(o) for o in obs_names]))
     if obs_extra:
         for k, v in obs_extra.items():
@@ -258,12 +273,19 @@ DEFAULT_SPEC = {
     'with_csv': True, 'with_hdf5': True, 'noise': 1.0,
     'collect': 'file',   # 'file' or 'manager' (direct call only)
     'max_gb': 1.0, 'n_extra_genes': None, 'extra_first': False,
-    'h5_layout': None,
+    'h5_layout': None, 'level_pool': None, 'unsorted_indices': None,
+    'full_cells': 0, 'query_order': None,
 }
 
 
 class World(object):
     pass
+
+
+def _pool(s):
+    """level-name pool forced by the spec (None = drawn by the builder)"""
+    i = s.get('level_pool')
+    return None if i is None else gen.LEVEL_NAME_POOLS[i]
 
 
 def build_world(spec, work):
@@ -282,10 +304,11 @@ def build_world(spec, work):
     if s.get('shape_index') is not None:
         shapes = gen.enumerate_shapes(4, 6)
         d, n, forest = shapes[s['shape_index']]
-        model = gen.build_from_shape(forest, d, rng)
+        model = gen.build_from_shape(forest, d, rng, level_pool=_pool(s))
     else:
         forest = gen.random_forest(rng, s['n_levels'], s['n_leaves'])
-        model = gen.build_from_shape(forest, s['n_levels'], rng)
+        model = gen.build_from_shape(forest, s['n_levels'], rng,
+                                     level_pool=_pool(s))
     if s.get('nasty_names'):
         model = rename_nodes(model, rng, gen.CSV_NASTY_NAMES)
     if s.get('childless_node') and len(model.hierarchy) > 1:
@@ -356,6 +379,28 @@ def build_world(spec, work):
         tbl['log'] = ['ignored']
     w.marker_path.write_text(json.dumps(tbl))
 
+    qo = s.get('query_order')
+    if qo in ('reference', 'markers-interior-shuffled'):
+        # the reference's own gene order (foreign genes last), optionally
+        # with everything between the first and the last marker shuffled
+        qset = set(query_genes)
+        order = [g for g in ref_genes if g in qset] + \
+            [g for g in query_genes if g not in set(ref_genes)]
+        if qo == 'markers-interior-shuffled':
+            allm = set()
+            for k, v in table.items():
+                allm |= set(v)
+            mk = [i for i, g in enumerate(order) if g in allm]
+            if len(mk) >= 4:
+                inner = list(range(mk[0] + 1, mk[-1]))
+                sh = [inner[i] for i in rng.permutation(len(inner))]
+                order2 = list(order)
+                for dst, src_i in zip(inner, sh):
+                    order2[dst] = order[src_i]
+                order = order2
+        query_genes = order
+        w.query_genes = query_genes
+
     # query
     n_cells = s['n_cells']
     raw = (s['normalization'] == 'raw')
@@ -373,6 +418,12 @@ def build_world(spec, work):
             if raw:
                 v = np.floor(2 ** v)
             Xq[:, j] = v
+    if s.get('full_cells'):
+        # cells without a single zero (every gene stored explicitly)
+        for i in range(min(int(s['full_cells']), n_cells)):
+            z = Xq[i] == 0
+            Xq[i, z] = np.floor(rng.uniform(1, 4, size=int(z.sum()))) \
+                if raw else rng.uniform(0.1, 1.0, size=int(z.sum()))
     if s.get('dup_rows'):
         # make some rows identical to others (C06)
         for _ in range(max(1, n_cells // 4)):
@@ -387,7 +438,8 @@ def build_world(spec, work):
     w.cell_ids = cell_ids(rng, n_cells, s['cell_id_style'])
     w.query_path = work / 'in' / 'query.h5ad'
     write_h5ad(w.query_path, Xq, w.cell_ids, query_genes,
-               encoding=s['encoding'], h5_layout=s.get('h5_layout'))
+               encoding=s['encoding'], h5_layout=s.get('h5_layout'),
+               unsorted_indices=s.get('unsorted_indices'))
 
     # run configuration
     drop_level = None
@@ -635,7 +687,8 @@ def derive_world(w, name, Xq=None, cell_ids=None, query_genes=None,
         d.query_path = d.work / 'in' / 'query.h5ad'
         write_h5ad(d.query_path, d.Xq, d.cell_ids, d.query_genes,
                    encoding=d.spec['encoding'],
-                   h5_layout=d.spec.get('h5_layout'))
+                   h5_layout=d.spec.get('h5_layout'),
+                   unsorted_indices=d.spec.get('unsorted_indices'))
     if model is not None:
         d.model = model
     if stats_path is not None:
